@@ -1,4 +1,5 @@
 """C06 - reliability-layer property judged on recorded executions (see conn_judge / specs/Trace_Conn.tla)."""
+from props import packing
 from props import conn_judge as J
 
 
@@ -6,6 +7,8 @@ def run(ctx):
     ctx.level = "model_checking"
     ctx.rule = ("events of recorded executions of two real endpoints judged by TLC against Trace_Conn; distinct = recv + build events; "
                 "non-trivial = every recv/build event (each is checked against the full clause set)")
+    packing.model(ctx)
+    packing.grid(ctx, "C06", [512, 600, 1096, 1097, 1500] if ctx.quick else list(range(512, 1501, 3)))
     J.run_scenarios(ctx, "C06", scenarios(ctx))
 
 
